@@ -3,14 +3,19 @@
    the two real blockwise.BlockWise instances. *)
 From Coq Require Import ZArith NArith List Bool.
 From GoCoap Require Import Base.Cases Base.Bytes Blockwise.Model.
-From GoCoap Require Export Blockwise.Config Blockwise.Spec Blockwise.Timed.
+From GoCoap Require Export Blockwise.Config Blockwise.Spec Blockwise.Timed Blockwise.SpecTime Blockwise.Deadline.
 Import ListNotations.
 Open Scope Z_scope.
 
 (* the script of a case may contain the passing of time and sweeps (Timed.tev); the observed
    trace is compared with the run of the timed endpoints (Blockwise/Timed.v), which coincides
    with the run of Blockwise/Model.v on scripts without Age / Sweep (ProofsTimed.timed_conservative) *)
-Inductive case := Case (c : cfg) (es : list tev) (os : list obs).
+Inductive case :=
+| Case (c : cfg) (es : list tev) (os : list obs)
+  (* ... and the application may give a Do a request context with a deadline (exchange -> timeout):
+     the observed trace is compared with the run of Blockwise/Deadline.v, which is Timed.trun when no
+     exchange has a deadline (ProofsDeadline.deadline_conservative) *)
+| CaseD (c : cfg) (dls : deadlines) (es : list tev) (os : list obs).
 
 Definition proj_blk (b : option blk) : option (Z * Z * bool) :=
   match b with Some x => Some (bszx x, bnum x, bmore x) | None => None end.
@@ -44,14 +49,26 @@ Definition obs_eqb (a b : obs) : bool :=
 Definition model_obs (c : cfg) (es : list ev) : list obs := map proj_mob (run c (init c) es).
 Definition model_obs_t (c : cfg) (es : list tev) : list obs := map proj_mob (trun c (tinit c) es).
 
+Definition model_obs_d (c : cfg) (dls : deadlines) (es : list tev) : list obs :=
+  map proj_mob (drun c dls (dinit c) es).
+
 (* does the observed trace equal the model's, event by event? *)
 Definition agrees (k : case) : bool :=
-  match k with Case c es os => list_eqb obs_eqb (model_obs_t c es) os end.
+  match k with
+  | Case c es os => list_eqb obs_eqb (model_obs_t c es) os
+  | CaseD c dls es os => dls_ok c dls && list_eqb obs_eqb (model_obs_d c dls es) os
+  end.
 
 (* the property (Spec.c04_class, with class 1 refined by Spec.mix_class into 8 body delivered under
    another token / 9 bodies of distinct tokens spliced: Spec.c04_class_x) on the OBSERVED trace *)
+(* ... then the clauses that need the clock and the shape of the script (SpecTime.c04_class_t): 10 / 11 a Do
+   returned ok with the 2.31 Continue that just arrived (exchange in good standing / not), 12 the peers of a
+   loss-free script keep exchanging blocks without end *)
 Definition pclass (k : case) : N :=
-  match k with Case c es os => c04_class_x c (untimed es) os end.
+  match k with
+  | Case c es os => c04_class_t c [] es os (untimed es)
+  | CaseD c dls es os => c04_class_t c dls es os (untimed es)
+  end.
 
 Definition mismatches (cs : list case) : list N := bad_indices (fun c => negb (agrees c)) cs.
 Definition property_failures (cs : list case) : list (N * N) := classes pclass cs.
@@ -64,4 +81,7 @@ Fixpoint first_diff (i : N) (a b : list obs) : option N :=
   | _, _ => Some i
   end.
 Definition where_differs (k : case) : option N :=
-  match k with Case c es os => first_diff 0%N (model_obs_t c es) os end.
+  match k with
+  | Case c es os => first_diff 0%N (model_obs_t c es) os
+  | CaseD c dls es os => first_diff 0%N (model_obs_d c dls es) os
+  end.
